@@ -63,6 +63,33 @@ package query
 //@   loop 1 modifies list[*]
 //@   modifies c.index, c.fetched, mutexHeld
 
+// OPEN evaluates the cursor's query exactly once and takes its result as the snapshot; an OPEN that fails (pseudo cursor,
+// already open, unknown or unsuitable prepared statement, error of the query) leaves the cursor exactly as it was - in
+// particular closed: it never keeps a half-evaluated result.
+//@ ghost var selectRuns int
+//@ ghost var lastSelected *View
+//@ func Select
+//@   trusted assumed: evaluates a query (the SELECT pipeline; its stages are proved separately under C03/C04/C07); ghost: counts the evaluations and names the result. The result may be non-nil together with an error.
+//@   ensures selectRuns == old(selectRuns) + 1 && lastSelected == result0 && (result1 == nil ==> result0 != nil)
+//@   modifies selectRuns, lastSelected
+//@   modifies * except F:query.Cursor. F:query.ReferenceScope. F:query.Transaction.
+//@ func context.WithValue
+//@   trusted assumed: derives a context; writes nothing that exists
+//@   modifies fresh
+//@ func (PreparedStatementMap).Get
+//@   trusted assumed: lookup in the map of prepared statements
+//@   ensures result1 == nil ==> result0 != nil
+//@   modifies nothing
+//@ func (*Cursor).Open
+//@   property C16
+//@   safety
+//@   requires c != nil && c.mtx != nil && scope != nil && scope.Tx != nil
+//@   ensures [failure-leaves-the-cursor-as-it-was] result != nil ==> c.view == old(c.view) && c.index == old(c.index) && c.fetched == old(c.fetched)
+//@   ensures [pseudo-or-open-is-an-error-without-evaluation] c.isPseudo || old(c.view) != nil ==> result != nil && selectRuns == old(selectRuns)
+//@   ensures [query-evaluated-at-most-once] selectRuns <= old(selectRuns) + 1
+//@   ensures [success-takes-the-one-result-as-snapshot] result == nil ==> selectRuns == old(selectRuns) + 1 && c.view == lastSelected && c.view != nil && c.index == -1 && !c.fetched
+//@   modifies *
+//@   modifies mutexHeld, selectRuns, lastSelected
 //@ func (*Cursor).Close
 //@   property C16
 //@   safety
@@ -440,6 +467,40 @@ package query
 // ---------------------------------------------------------------------------------------------
 // C03: WHERE / HAVING keep exactly the rows whose condition is TRUE, in order
 // The per-row evaluation runs on worker goroutines (outside the verified subset). It is summarised by the
+// C03 / C12: the workers behind WHERE, the select list and the LATERAL loop. A worker walks its own row range once, in
+// order, and hands the callback the scope positioned on a row together with that row's index in the whole view (the
+// callback stores its result under that index: a range-relative index would file the results of every worker but the
+// first under the rows of the first).
+//@ func NewFieldIndexCache
+//@   trusted assumed: allocates a field index cache
+//@   modifies fresh
+//@ func (*ReferenceScope).CreateScopeForRecordEvaluation
+//@   property C03
+//@   safety
+//@   requires rs != nil && view != nil
+//@   ensures [scope-positioned-on-the-given-view] result != nil && fresh(result) && fresh(result.Records) && len(result.Records) == len(rs.Records) + 1 && result.Records[0].view == view && result.Records[0].recordIndex == recordIndex
+//@   ensures [outer-records-follow] forall(k, 0, len(rs.Records), result.Records[k + 1].view == rs.Records[k].view && result.Records[k + 1].recordIndex == rs.Records[k].recordIndex)
+//@   loop 1 invariant 0 <= $i && $i <= len(rs.Records) && len(records) == len(rs.Records) + 1 && fresh(records) && records[0].view == view && records[0].recordIndex == recordIndex
+//@   loop 1 invariant forall(k, 0, $i, records[k + 1].view == rs.Records[k].view && records[k + 1].recordIndex == rs.Records[k].recordIndex)
+//@   loop 1 modifies records[*]
+//@   modifies fresh
+//@ func evaluateSequentialRoutine
+//@   property C03 C12
+//@   requires gm != nil && scope != nil && view != nil && gm.Number >= 1 && gm.recordLen == len(view.RecordSet) && 0 <= thIdx && thIdx < gm.Number
+//@   callback fn modifies * except F:query.ReferenceScope. F:query.ReferenceRecord. E:query.ReferenceRecord# F:query.View. E:query.Record# F:query.GoroutineTaskManager.Number F:query.GoroutineTaskManager.recordLen
+//@   assert before call query.fn#1: [callback-gets-the-row-the-scope-is-on-by-its-index-in-the-whole-view] 0 <= arg1 && arg1 < len(view.RecordSet) && arg0.Records[0].view.RecordSet[arg0.Records[0].recordIndex] == view.RecordSet[arg1] && start <= arg1 && arg1 < end
+//@   loop 1 invariant seqScope != nil && len(seqScope.Records) >= 1 && seqScope.Records[0].view != nil && seqScope.Records[0].view != view && view.RecordSet == old(view.RecordSet)
+//@   loop 1 invariant 0 <= start && start <= end && end <= len(view.RecordSet) && seqScope.Records[0].view.RecordSet == view.RecordSet[start:end] && -1 <= seqScope.Records[0].recordIndex && seqScope.Records[0].recordIndex < end - start
+//@   loop 1 step [rows-visited-one-by-one-in-order] seqScope.Records[0].recordIndex == old(seqScope.Records[0].recordIndex) + 1
+//@   modifies *
+//@ func (*GoroutineTaskManager).run
+//@   property C03 C12
+//@   requires m != nil && m.Number >= 1 && m.recordLen >= 0 && 0 <= thIdx && thIdx < m.Number
+//@   assert before call query.fn#1: [callback-gets-each-index-of-the-worker-range] start <= arg0 && arg0 < end && arg0 == i
+//@   loop 1 invariant start <= i
+//@   loop 1 step [indices-ascend-one-by-one] i == old(i) + 1
+//@   modifies *
+
 // assumed contract of EvaluateSequentially (it leaves the storage of every View alone; what it writes through the
 // closure - the result slots - is arbitrary) and by the closure's own contract, verified below: slot rIdx is set
 // iff the condition evaluated to TRUE, and no other slot is touched.
@@ -1054,6 +1115,29 @@ package query
 //@   trusted assumed: releases the mutex
 //@   ensures mutexHeld == store(old(mutexHeld), m, false)
 //@   modifies mutexHeld
+// C19 (no hang) / C13: the table-loading mutex of the transaction. loadHttpObject releases it by hand: it must be released on
+// every path, error paths included (a path that keeps it blocks every later table load of the session for ever).
+//@ func net/http.Get
+//@   trusted assumed: performs the request; writes nothing of the program's state
+//@   modifies fresh
+//@ func NewUrlResource
+//@   trusted assumed: reads the response body into a fresh resource
+//@   modifies fresh
+//@ func NewHttpRequestError
+//@   trusted assumed: error constructor
+//@   ensures result != nil
+//@   modifies fresh
+//@ func loadObjectFromString
+//@   trusted assumed: parses the text into a view under the loading mutex, which it takes and releases itself (deferred unlock)
+//@   requires !mutexHeld[scope.Tx.viewLoadingMutex]
+//@   modifies * except F:query.ReferenceScope.Tx# F:query.Transaction.viewLoadingMutex#
+//@ func loadHttpObject
+//@   property C19 C13
+//@   requires scope != nil && scope.Tx != nil && scope.Tx.viewLoadingMutex != nil && !mutexHeld[scope.Tx.viewLoadingMutex]
+//@   ensures [loading-mutex-released-on-every-path] !mutexHeld[scope.Tx.viewLoadingMutex] && scope.Tx == old(scope.Tx) && scope.Tx.viewLoadingMutex == old(scope.Tx.viewLoadingMutex)
+//@   guarded MD:string→*query.UrlResource by mutexHeld[scope.Tx.viewLoadingMutex]
+//@   modifies *
+//@   modifies mutexHeld
 //@ func (*GoroutineTaskManager).HasError
 //@   property C13
 //@   guarded F:query.GoroutineTaskManager.err# by mutexHeld[m.grTaskMutex]
@@ -1217,14 +1301,24 @@ package query
 //@ func (ViewMap).Dispose
 //@   trusted assumed: closes the cached view's handler and drops the entry
 //@   modifies * except F:query.ReferenceScope. F:query.Transaction. F:query.View. F:query.FileInfo.
+//@ func loadObjectFromFile
+//@   property C13
+//@   abstract *
+//@   requires scope != nil && scope.Tx != nil && !mutexHeld[scope.Tx.viewLoadingMutex]
+//@   modifies *
+// C13: the per-statement path cache is a plain map shared by the worker goroutines of a statement (sub-queries in a
+// parallel filter load tables); it is read and written only while the table-loading mutex of the transaction is held
 //@ func (*ReferenceScope).LoadFilePath
 //@   trusted assumed: per-scope path cache lookup
+//@   requires [path-cache-read-under-the-loading-mutex] mutexHeld[rs.Tx.viewLoadingMutex]
 //@   modifies nothing
 //@ func (*ReferenceScope).FilePathExists
 //@   trusted assumed
+//@   requires [path-cache-read-under-the-loading-mutex] mutexHeld[rs.Tx.viewLoadingMutex]
 //@   modifies nothing
 //@ func (*ReferenceScope).StoreFilePath
 //@   trusted assumed: per-scope path cache
+//@   requires [path-cache-written-under-the-loading-mutex] mutexHeld[rs.Tx.viewLoadingMutex]
 //@   modifies * except F:query.ReferenceScope.Tx# F:query.Transaction. F:query.View. F:query.FileInfo.
 //@ func ConvertFileHandlerError
 //@   trusted assumed: error conversion
@@ -1849,3 +1943,4 @@ package query
 //@   safety
 //@   abstract *
 //@   requires scope != nil && scope.Tx != nil && scope.Tx.Flags != nil
+//@   requires [runs-under-the-loading-mutex] mutexHeld[scope.Tx.viewLoadingMutex]
